@@ -124,6 +124,9 @@ trait Dom: 'static {
     fn content(t: &Self::T) -> Vec<u32>;
     fn owned_content(o: &<Self::T as ToOwned>::Owned) -> Vec<u32>;
     fn from_owned_conv(o: <Self::T as ToOwned>::Owned) -> Cow<'static, Self::T>;
+    /// 0: `Default::default()`; 1: a borrowed proper prefix of `statik()` (same start address, shorter), for str
+    /// through the `std::borrow::Cow::Borrowed` conversion
+    fn extra(k: usize) -> Cow<'static, Self::T>;
 }
 struct StrDom;
 impl Dom for StrDom {
@@ -152,6 +155,13 @@ impl Dom for StrDom {
     fn from_owned_conv(o: String) -> Cow<'static, str> {
         // through the std Cow conversion
         Cow::from(std::borrow::Cow::Owned(o))
+    }
+    fn extra(k: usize) -> Cow<'static, str> {
+        if k == 0 {
+            Cow::default()
+        } else {
+            Cow::from(std::borrow::Cow::Borrowed(&Self::statik()[..1]))
+        }
     }
 }
 struct SliceDom;
@@ -187,6 +197,13 @@ impl Dom for SliceDom {
     fn from_owned_conv(o: Vec<E>) -> Cow<'static, [E]> {
         Cow::from(o)
     }
+    fn extra(k: usize) -> Cow<'static, [E]> {
+        if k == 0 {
+            Cow::default()
+        } else {
+            Cow::from(&Self::statik()[..1])
+        }
+    }
 }
 
 struct Slot<D: Dom> {
@@ -196,7 +213,7 @@ struct Slot<D: Dom> {
     arc: Option<usize>,
 }
 
-const N_CONSTRUCT: usize = 9;
+const N_CONSTRUCT: usize = 11;
 const POOL: usize = 3;
 // op encoding: 0..N_CONSTRUCT construct; then for slot i in 0..POOL: clone, check, into_owned, drop, thread_drop; then pair ops
 fn n_ops() -> usize {
@@ -238,6 +255,8 @@ fn run_seq<D: Dom>(seq: &[usize]) -> Result<Option<usize>, (String, String, usiz
                     // shared, the only other reference is dropped right away
                     (Cow::from_shared(D::shared()), None)
                 }
+                9 => (D::extra(0), None),
+                10 => (D::extra(1), None),
                 7 => {
                     let a = D::shared();
                     outside.push((a.clone(), None));
@@ -462,7 +481,7 @@ fn cow_part<D: Dom>(ctx: &Ctx, res: &mut PartResult, depth: usize, first: Option
     for (sig, msg, seq) in fails {
         res.violation(&sig, msg, json!({"seq": seq}));
     }
-    res.sample(json!({"domain": D::NAME, "ops": "construct(shared + outside Arc), clone(0), into_owned(0), thread_drop(1)", "encoding": "0-8 construct variants; then per slot: clone, check, into_owned, drop, drop-on-other-thread; then pairwise ==/cmp/hash"}));
+    res.sample(json!({"domain": D::NAME, "ops": "construct(shared + outside Arc), clone(0), into_owned(0), thread_drop(1)", "encoding": "0-10 construct variants (static, owned with/without spare capacity, std Cow conversions, shared Arc with/without outside references, Default, borrowed prefix of the static); then per slot: clone, check, into_owned, drop, drop-on-other-thread; then pairwise ==/cmp/hash"}));
 }
 
 /// the same code through the metrics crate's public API: SharedString, Label, Key
@@ -633,7 +652,7 @@ fn main() {
     driver::main(CheckDef {
         prop: "C14",
         level: "model_checking",
-        rule: "every sequence of the stated depth (first operation = each of the 9 constructions) over: construct {borrowed, From<&T>, owned with (len,cap) in (0,0),(0,8),(3,3),(3,16) incl. through the std Cow / Vec conversions, shared Arc alone, shared Arc with an outside strong reference, with an outside strong + weak reference}, and per pool slot (3 slots) clone, read back (deref, as_ref), into_owned, drop, move-to-another-thread-read-and-drop, plus pairwise ==/cmp/hash; for Cow<str> and for Cow<[E]> with a drop-, clone- and corruption-detecting element type, on the repository's cow.rs compiled into the harness; after every step contents equal the model and Arc strong counts equal the model; at the end every element instance is dropped exactly once and the tracking allocator (no block reuse, poison on free, recorded double/invalid frees) is back to its baseline; plus sequences through the public SharedString/Label/Key API; distinct = distinct (allocations, frees, prune point) profiles",
+        rule: "every sequence of the stated depth (first operation = each of the 11 constructions) over: construct {borrowed, From<&T>, Default, a borrowed proper prefix of the static (same address, shorter; for str through std Cow::Borrowed), owned with (len,cap) in (0,0),(0,8),(3,3),(3,16) incl. through the std Cow / Vec conversions, shared Arc alone, shared Arc with an outside strong reference, with an outside strong + weak reference}, and per pool slot (3 slots) clone, read back (deref, as_ref), into_owned, drop, move-to-another-thread-read-and-drop, plus pairwise ==/cmp/hash; for Cow<str> and for Cow<[E]> with a drop-, clone- and corruption-detecting element type, on the repository's cow.rs compiled into the harness; after every step contents equal the model and Arc strong counts equal the model; at the end every element instance is dropped exactly once and the tracking allocator (no block reuse, poison on free, recorded double/invalid frees) is back to its baseline; plus sequences through the public SharedString/Label/Key API; distinct = distinct (allocations, frees, prune point) profiles",
         assumptions: &["cow.rs is self-contained, so compiling the same source file into the harness exercises the code the metrics crate compiles", "Send/Sync bound soundness is a type-level claim outside this technique", "From<Cow<T>> for std::borrow::Cow<T> exists only for sized T and cannot be instantiated for str or slices"],
         parts,
         run,
